@@ -44,3 +44,13 @@ Example C13_history :
   end.
 Proof. exact nonvacuous_history. Qed.
 Print Assumptions C13_history.
+
+(* a rejected call - minimize / maximize of a non-expression, subject_to of a list holding an invalid element - is invisible:
+   the history without it ends in the same state and store, and every other operation observes the same thing *)
+Theorem C13_rejected_call_is_transparent : forall ops1 ops2 s st,
+  let '(sa, sta, oa) := run_ops bounds_methods hessian_methods s st (ops1 ++ ORejected :: ops2)%list in
+  let '(sb, stb, ob) := run_ops bounds_methods hessian_methods s st (ops1 ++ ops2)%list in
+  sa = sb /\ sta = stb /\
+  oa = (firstn (List.length ops1) ob ++ ONone :: skipn (List.length ops1) ob)%list.
+Proof. exact (rejected_transparent bounds_methods hessian_methods). Qed.
+Print Assumptions C13_rejected_call_is_transparent.
